@@ -1,0 +1,37 @@
+//go:build verif
+// +build verif
+
+package streams
+
+import "sync/atomic"
+
+// Verification hooks (build tag "verif" only; nothing here is compiled into normal builds).
+//
+// yield(n) is called immediately before each atomic operation of GetStream and Clear:
+//   1 load offset, 2 CAS offset, 3 load word, 4 CAS word, 5 add +1, 6 reload word   (GetStream)
+//   7 load word, 8 CAS word, 9 reload word, 10 add -1                               (Clear)
+// A deterministic scheduler installs a hook that blocks the calling goroutine until it is
+// scheduled again.
+
+var verifHook atomic.Value // of func(int)
+
+type hookBox struct{ f func(int) }
+
+func yield(n int) {
+	if b, _ := verifHook.Load().(hookBox); b.f != nil {
+		b.f(n)
+	}
+}
+
+// SetVerifYield installs (or, with nil, removes) the yield hook.
+func SetVerifYield(f func(int)) { verifHook.Store(hookBox{f}) }
+
+// VerifSnapshot returns the allocator's shared memory: rotating offset, in-use counter and a copy
+// of the bit words. It is meant to be called while every goroutine using s is blocked in a yield.
+func (s *IDGenerator) VerifSnapshot() (offset uint32, inuse int32, words []uint64) {
+	words = make([]uint64, len(s.streams))
+	for i := range s.streams {
+		words[i] = atomic.LoadUint64(&s.streams[i])
+	}
+	return atomic.LoadUint32(&s.offset), atomic.LoadInt32(&s.inuseStreams), words
+}
